@@ -14,18 +14,21 @@ E == T.ev[l]
 
 TInit == /\ tid \in 1..Len(Traces) /\ l = 1
          /\ InitWith([nopt |-> Traces[tid].cfg.nopt, accL |-> Traces[tid].cfg.accL,
-                      accR |-> Traces[tid].cfg.accR, maxreq |-> 1000000])
+                      accR |-> Traces[tid].cfg.accR, maxreq |-> 1000000, reent |-> TRUE])
 
 Matches ==
     /\ last'.e = E.e
     /\ CASE E.e = "req"  -> /\ last'.p = E.p /\ last'.k = E.k /\ last'.o = E.o /\ last'.id = E.id
-                            /\ last'.sent = E.sent /\ last'.fired = E.fired /\ last'.exc = E.exc
+                            /\ last'.sent = E.sent /\ last'.fired = E.fired /\ last'.exc = E.exc /\ last'.re = E.re
          [] E.e = "recv" -> /\ last'.p = E.p /\ last'.m = E.m
                             /\ last'.sent = E.sent /\ last'.fired = E.fired /\ last'.exc = E.exc
          [] E.e = "quiet" -> last'.st = E.st
          [] OTHER -> FALSE
 
-Step(A) == /\ l <= Len(T.ev) /\ A /\ Matches /\ Inv' /\ l' = l + 1 /\ UNCHANGED tid
+\* the follow-up a firing handler chooses is the one the trace shows next (a req event with re = TRUE)
+NextRe == IF l < Len(T.ev) /\ T.ev[l + 1].e = "req" /\ T.ev[l + 1].re
+          THEN <<T.ev[l + 1].p, T.ev[l + 1].k, T.ev[l + 1].o>> ELSE <<>>
+Step(A) == /\ l <= Len(T.ev) /\ A /\ Matches /\ reent' = NextRe /\ Inv' /\ l' = l + 1 /\ UNCHANGED tid
 
 TNext == \/ (E.e = "req" /\ Step(Req(E.p, E.k, E.o)))
          \/ (E.e = "recv" /\ Step(Recv(E.p)))
